@@ -58,6 +58,11 @@ CHECKS = {
     technique='runtime fault injection: Python-level failpoints on every file-system call class (counting run, then one execution per class x call index x errno), kernel-level strace -e inject on a sample, genuine EACCES as uid 65534; WriteAudit (sys.addaudithook) + tree snapshots for the update half',
     text='For each generated tree (consistent, or consistent plus one stray) and each of strict verify, keep-going verify and the scan phase of update, every single placement of an injected OSError at os.open/open/os.stat/os.fstat/os.scandir/scandir iteration/binary read/text read is executed: the result must never be success, and a failing update must leave no write event and a byte-identical tree. A strace layer injects the same faults in the kernel on a sample; a privilege-dropped child meets real mode-000 files, directories and Manifests.',
     note='Single faults only. ENOENT/ENXIO/EOPNOTSUPP excluded. Stat-family faults injected at the kernel boundary are not decidable (CPython io.open ignores its own fstat failures) and only counted. Errno set of ten values; quick uses all ten for call classes with <= 16 calls and three otherwise.'),
+ 'C16': dict(
+    category='exploration', design='3 C16',
+    technique='runtime monitoring: the three real tree walkers under a logical step budget (wrapped os.walk with permuted order) on enumerated directory shapes x symlink sets vs an independent ancestor-stack exploration; real second file system (/dev/shm) for the one-file-system half',
+    text='Every directory shape with <= 3 (quick) / 4 (thorough) directories and every set of <= 2 / 3 directory symlinks among all (location, target) pairs, with IGNORE on a link or above it, is walked by verify (lenient handler), the unregistered-Manifest scan and update: ManifestSymlinkLoop must be raised exactly when a non-ignored link leads back to an ancestor, nothing may exceed 4000 directory steps, and files behind other links must verify like ordinary files. With allow_xdev=False a linked-in /dev/shm directory or file must raise ManifestCrossDevice from every walker (also when the top-level Manifest is only being created), never when ignored or allowed.',
+    note='Trusted: the exploration in vf/checks/c16.py (explore), os.stat identities. A stray file on another device may be reported as a stray mismatch instead of the cross-device error in verify mode (counted, not a violation). Wall-clock watchdogs only ever yield inconclusive.'),
 }
 
 def main():
